@@ -373,10 +373,26 @@ func c08Run(n int, c c08Case) (fp, detail, note string) {
 	if _, err := st.RewriteSender(ctx, from); err != nil {
 		return "HARNESS", err.Error(), ""
 	}
+	signStart := time.Now().Unix() // the signer is asked to sign no earlier than this second
 	if err := st.RewriteBody(ctx, &hdr, buffer.MemoryBuffer{Slice: body}); err != nil {
 		return "", "", "signer-refused"
 	}
 	st.Close()
+	if sig := hdr.Get("DKIM-Signature"); sig != "" {
+		// the signature is valid for the configured time (default sig_expiry: 5 days) counted
+		// from the moment of signing, however long the signer has been running
+		var xs int64
+		for _, tag := range strings.Split(sig, ";") {
+			kv := strings.SplitN(strings.TrimSpace(tag), "=", 2)
+			if len(kv) == 2 && strings.TrimSpace(kv[0]) == "x" {
+				xs, _ = strconv.ParseInt(strings.TrimSpace(kv[1]), 10, 64)
+			}
+		}
+		// real time enters only as a lower bound: the expiry is computed after signStart
+		if xs != 0 && xs < signStart+5*86400 {
+			return "C08:signature-expires-early", fmt.Sprintf("asked to sign at %d, signature expires at x=%d: %d s before the configured 5 days (432000 s) are over", signStart, xs, signStart+5*86400-xs), ""
+		}
+	}
 	if !hdr.Has("DKIM-Signature") {
 		return "C08:not-signed", "the signer added no signature", ""
 	}
@@ -738,7 +754,7 @@ func TestVerifC08(t *testing.T) {
 	log.DefaultLogger.Out = log.NopOutput{}
 	r := vx.Start("C08", "spool+smtp")
 	defer r.Finish()
-	r.Rule("messages from a grammar of header-field shapes (5 From x 15 Subject x 3 To x 6 groups of further fields incl. more than 1 MiB of padding fields above the signed ones: folding with SP/TAB, fold right after the colon, whitespace-only continuation, empty values, 980-octet values, repeated fields, lower/upper-case names, 8-bit and UTF-8 values, a foreign DKIM-Signature) x 21 bodies (5 of them larger than the 32 KiB copy buffer with a line terminator or a leading dot on a buffer boundary; empty, CRLF only, leading/trailing empty lines, dot lines, trailing and inner whitespace, 998-octet line, 8-bit, UTF-8) x key {rsa2048, ed25519; generated by the module, or provisioned beforehand without a .dns file under either newkey_algo setting; or one signing domain with sign_subdomains and a sender in a subdomain} x header canon x body canon x {ASCII, IDN signing domain} x {SMTPUTF8 on, off} x {first attempt, retry from the spool}; signed by modify.dkim, queued, sent by target.smtp to a scripted server; oracle: payload verifies with go-msgauth and with the independent vdkim verifier against the .dns record maddy wrote, and every tampered copy (signed field removed / altered, over-signed field added at top / bottom, body extended) is rejected by both. Quick tier: a covering subset of field-shape combinations; thorough: the full product")
+	r.Rule("messages from a grammar of header-field shapes (5 From x 15 Subject x 3 To x 6 groups of further fields incl. more than 1 MiB of padding fields above the signed ones: folding with SP/TAB, fold right after the colon, whitespace-only continuation, empty values, 980-octet values, repeated fields, lower/upper-case names, 8-bit and UTF-8 values, a foreign DKIM-Signature) x 21 bodies (5 of them larger than the 32 KiB copy buffer with a line terminator or a leading dot on a buffer boundary; empty, CRLF only, leading/trailing empty lines, dot lines, trailing and inner whitespace, 998-octet line, 8-bit, UTF-8) x key {rsa2048, ed25519; generated by the module, or provisioned beforehand without a .dns file under either newkey_algo setting; or one signing domain with sign_subdomains and a sender in a subdomain} x header canon x body canon x {ASCII, IDN signing domain} x {SMTPUTF8 on, off} x {first attempt, retry from the spool}; signed by modify.dkim, queued, sent by target.smtp to a scripted server; oracle: the signature does not expire before the configured sig_expiry counted from the moment the signer was asked to sign, whatever the age of the signer instance; payload verifies with go-msgauth and with the independent vdkim verifier against the .dns record maddy wrote, and every tampered copy (signed field removed / altered, over-signed field added at top / bottom, body extended) is rejected by both. Quick tier: a covering subset of field-shape combinations; thorough: the full product")
 	if rp := r.Replay(); rp != nil {
 		var c c08Case
 		if json.Unmarshal(rp, &c) != nil {
